@@ -1461,6 +1461,70 @@ def deferred_correspondence(ctx, B, classes):
     one(5, [(i, None) for i in range(1, 30)], 'more-than-capacity')
 
 
+def non_xml_characters():
+    """every code point outside the Char production of XML 1.0"""
+    return ([0] + list(range(1, 9)) + [0x0b, 0x0c] + list(range(0x0e, 0x20)) + list(range(0xd800, 0xe000)) + [0xfffe, 0xffff])
+
+
+def non_xml_enumeration(ctx, sess, L):
+    """every character XML does not allow, in the strings that reach a fault text: (1) Fault.add_reason_text + serialisation of the
+    fault by the provider's message factory, all of them; (2) a later path element of a POST through the live middleware (all C0
+    controls and the non-characters; the 2048 surrogates: all in the thorough tier, borders and every 16th otherwise); (3) the C0
+    controls in the path through the real request handler (a request line is latin-1)"""
+    from sdc11073.pysoap.soapenvelope import Fault, faultcodeEnum
+    from sdc11073.xml_types.addressing_types import HeaderInformationBlock
+    chars = non_xml_characters()
+    bad = []
+    for cp in chars:
+        try:
+            f = Fault()
+            f.Code.Value = faultcodeEnum.SENDER
+            f.add_reason_text(f'invalid path Get{chr(cp)}x')
+            out = sess.dev.msg_factory.mk_soap_message(HeaderInformationBlock(action=f.action, addr_to=None), payload=f).serialize()
+            if check_soap_body(500, out, want_fault=True):
+                bad.append(cp)
+        except Exception:  # noqa: BLE001
+            bad.append(cp)
+    ctx.evaluations += len(chars)
+    ctx.count('non-xml-characters:fault-text', len(chars))
+    if bad:
+        ctx.fail('do_post:exception-escapes', 'a fault whose reason text contains ' + ', '.join(f'U+{c:04X}' for c in bad[:8]) +
+                 f' ({len(bad)} of {len(chars)} characters outside the XML Char production) cannot be built / serialised',
+                 {'kind': 'non-xml-fault-text', 'codepoints': bad[:40]})
+    rec = next((r for r in sess.requests if r['path'].endswith('/Get')), sess.requests[0])
+    pre = '/'.join(rec['path'].split('/')[:2])
+    sur = [c for c in chars if 0xd800 <= c < 0xe000]
+    if ctx.tier != 'thorough':
+        sur = [c for c in sur if c in (0xd800, 0xdbff, 0xdc00, 0xdfff) or c % 16 == 0]
+    for cp in [c for c in chars if not 0xd800 <= c < 0xe000] + sur:
+        for path in (f'{pre}/Get{chr(cp)}', f'{pre}/{chr(cp)}'):
+            post_real(ctx, sess, sess.p_mw, 'provider', f'non-xml-path:U+{cp:04X}', path, rec['body'], None)
+        if _enough(ctx):
+            return
+    server = types.SimpleNamespace(dispatcher=sess.psrv.dispatcher, supported_encodings=[], chunk_size=0, logger=c17.real_logger())
+    for cp in [c for c in chars if c < 0x20]:
+        for path in (f'{pre}/Get{chr(cp)}', f'/{chr(cp)}x', f'{pre}/{chr(cp)}?wsdl'):
+            method = 'GET' if path.endswith('?wsdl') else 'POST'
+            raw = f'{method} {path} HTTP/1.1\r\nHost: h\r\n'.encode('latin-1') + \
+                (b'Content-Length: %d\r\n\r\n' % len(rec['body']) + rec['body'] if method == 'POST' else b'\r\n')
+            case = {'kind': 'http', 'mutation': f'non-xml-path:U+{cp:04X}', 'raw': c17.hx(raw)}
+            sock = OpenConnSock(raw)
+            r = WD.call(L.rh.DispatchingRequestHandler, sock, ('127.0.0.1', 50000), server)
+            out = b''.join(sock.out)
+            ctx.case({'k': 'http-nonxml', 'cp': cp, 'p': path[-6:]}, nontrivial=True)
+            if r[0] != 'ok':
+                ctx.fail(f'do_{method}:' + ('hang' if r[0] == 'hang' else 'exception-escapes'), f'path with U+{cp:04X}: {r!r:.160}', case)
+                continue
+            resps = parse_responses(out)
+            if status_line_problem(out) or not resps or resps[0] is None:
+                ctx.fail(f'do_{method}:malformed-status-line', f'path with U+{cp:04X}: {status_line_problem(out) or out[:60]!r}', case)
+                continue
+            code, _, h, payload = resps[0]
+            if method == 'POST' and path.startswith(pre) and not ('soap+xml' in h.get('content-type', '') and not check_soap_body(code, payload, want_fault=code != 200)):
+                ctx.fail('answer:fault-not-wellformed', f'path with U+{cp:04X}: status {code}, content-type {h.get("content-type")!r}: the invalid '
+                         'path element is not answered with a SOAP fault', case)
+
+
 def operation_queue_history(ctx, sess):
     """a provider whose operation handler is still running while more valid Set requests arrive than the operation queue holds:
     every request must be answered (InvocationState Wait, or Fail once the queue is full) - none may block"""
@@ -1679,11 +1743,22 @@ def http_stream(ctx, sess, L):
             inner = rng.choice(subs)
             wire = (f"POST {inner['path']} HTTP/1.1\r\nHost: {Session.P_NETLOC}\r\nContent-Type: application/soap+xml; charset=utf-8\r\n"
                     f"Content-Length: {len(inner['body'])}\r\n\r\n").encode() + inner['body']
-            if rng.random() < 0.75:
+            r_ = rng.random()
+            if r_ < 0.5:
                 hdrs.append(('Content-Length', rng.choice(['abc', '-5', '-1', '', '1e3', '5, 6', '0x', '--1', '1.0', 'NaN'])))
-            else:
+            elif r_ < 0.65:
                 hdrs.append(('Transfer-Encoding', 'chunked'))
                 wire = rng.choice([b'zz\r\n', b'-1\r\n', b'\r\n', b'5;x\r\nab', b'0x\r\n']) + wire
+            else:
+                # both framing headers (RFC 7230 3.3.3: Transfer-Encoding wins): the chunk DATA is a complete valid Subscribe request.
+                # A reader that believes Content-Length takes a few bytes as body and leaves the rest of the chunked payload in the stream
+                payload = wire
+                size_line = b'%x\r\n' % len(payload)
+                wire = size_line + payload + b'\r\n0\r\n\r\n'
+                cl = rng.choice([len(size_line), len(size_line), len(size_line) - 2, len(payload), len(wire), 0, len(size_line) + len(payload) + 2])
+                order = rng.random() < 0.5
+                both = [('Transfer-Encoding', 'chunked'), ('Content-Length', str(cl))]
+                hdrs += both if order else both[::-1]
             kind = 'smuggle'
         else:
             hdrs.append(('Content-Length', str(len(wire))))
@@ -1811,6 +1886,7 @@ def run(ctx):
     ctx.notes['background_workers_stopped'] = sess.stopped_workers
     try:
         mutation_stream(ctx, sess)
+        non_xml_enumeration(ctx, sess, L)
         novalidate_stream(ctx)
         operation_queue_history(ctx, sess)
         consumer_history(ctx, sess)
@@ -1896,6 +1972,8 @@ def _run_case(ctx, L, case):
         consumer_history(ctx, session())
     elif k == 'operation-queue':
         operation_queue_history(ctx, session())
+    elif k == 'non-xml-fault-text':
+        non_xml_enumeration(ctx, session(), L)
     elif k in ('inject-do_POST', 'inject-do_GET'):
         classes = {c[0]: c for c in exception_classes()}
         table = {s: classes[n] for s, n in case['stages'].items() if n in classes}
@@ -1924,6 +2002,8 @@ def search(ctx):
         if not ctx.failures:
             sess = session()
             http_stream(ctx, sess, L)
+        if not ctx.failures:
+            non_xml_enumeration(ctx, session(), L)
         if not ctx.failures:
             mutation_stream(ctx, session())
         if not ctx.failures:
